@@ -24,7 +24,7 @@ LEVEL_NOTE = ("Partial: cache faults while dependency outputs are loaded are not
 TECHNIQUE = "Lean 4 proof over an executable model + lock-step history correspondence (all vs minimal) with the real CLI"
 OBLIGATIONS = [
     "Grog.C15.same_decision_step",
-    "Grog.C15.deps_present_at_exec",
+    "Grog.C15.same_status_step",
     "Grog.C15.materialised_equal",
     "Grog.C15.nocache_rerun_witness",
 ]
